@@ -120,6 +120,7 @@ def hyp_search(strategy, check, col, *, max_examples, seed, shrink=True, attribu
     )
     @given(strategy)
     def t(case):
+        last["case"] = case
         fails = check(case) or []
         for message, bucket in fails:
             fid = attribute(case, message, bucket) if attribute else None
@@ -155,7 +156,21 @@ def hyp_search(strategy, check, col, *, max_examples, seed, shrink=True, attribu
     except hypothesis.errors.FailedHealthCheck as e:
         col.error("hypothesis health check: %s" % (e,))
     except Exception:
-        col.error("harness exception: " + traceback.format_exc())
+        tb = traceback.format_exc()
+        # keep the END of the traceback (exception type) and the case that was being checked
+        where = ""
+        try:
+            import json, os, tempfile
+
+            d = os.path.join(os.environ.get("VF_ERRDIR") or os.path.join(os.path.dirname(os.path.dirname(os.path.abspath(__file__))), "replays", "_harness_errors"))
+            os.makedirs(d, exist_ok=True)
+            fd, path = tempfile.mkstemp(prefix="case_", suffix=".json", dir=d)
+            with os.fdopen(fd, "w") as fh:
+                json.dump({"case": last.get("case"), "traceback": tb[-6000:]}, fh, default=repr)
+            where = " [case saved: %s]" % path
+        except Exception:  # noqa
+            pass
+        col.error("harness exception%s: ...%s" % (where, tb[-2500:]))
     return col
 
 
